@@ -50,7 +50,7 @@ def run(prog, rep, tier):
 
 
 def r8_1(prog, rep):
-    sub = type(rep)(rep.prop)
+    sub = rep.sub()
     C04.r4_3(prog, sub)
     for it in sub.items:
         it = dict(it)
@@ -233,7 +233,7 @@ def r8_3(prog, rep, pp):
 def r8_4(prog, rep):
     from . import C09
 
-    sub = type(rep)(rep.prop)
+    sub = rep.sub()
     C09.r9_2(prog, sub, prog.fn("matrices.design_matrices"))
     for it in sub.items:
         it = dict(it)
@@ -241,7 +241,7 @@ def r8_4(prog, rep):
         rep.items.append(it)
         rep.counts["R8.4"] = rep.counts.get("R8.4", 0) + 1
     # only names of variables (never literals) are counted as used columns
-    sub2 = type(rep)(rep.prop)
+    sub2 = rep.sub()
     C09.r9_4(prog, sub2)
     for it in sub2.items:
         # the set of used columns must be exact in both directions: a column that is not mentioned must not be selected
